@@ -396,6 +396,16 @@ pub fn run(sc: &Scenario) -> Outcome {
                         counters.inc("resolve.expected_failure");
                         let _ = (e, m);
                     }
+                    (Err(e), Ok(m)) if e.starts_with("second update:") && {
+                        let repos: Vec<usize> = m.iter().map(|x| x.0).collect();
+                        repos.windows(2).any(|p| p[0] == p[1])
+                    } =>
+                    {
+                        // the recorded finding in its other form: with one project locked at two
+                        // releases the unchanged second update re-resolves a requirement to the
+                        // other lock, here into a root conflict instead of a modification report
+                        return Outcome { violation: Some(("unchanged-update-fails:two-locked-releases-of-one-project".into(), format!("step {si} {step:?}: `{e}` (expected lock table {m:?})"))), counters, harness_error: None };
+                    }
                     (Err(e), Ok(m)) => {
                         return Outcome { violation: Some(("resolution-fails".into(), format!("step {si} {step:?}: failed with `{e}` but releases exist: expected {m:?}"))), counters, harness_error: None };
                     }
